@@ -3,39 +3,61 @@
    the harness's own hosts, realms and resource scopes.  A walk is a configuration, GenCalls
    sequential calls with the ticks at which they start, and every answer the environment gave;
    it is printed as JSON when the last call has returned.  RandomElement keeps the many
-   possible call parameters and challenge offers from crowding out the other steps. *)
+   possible call parameters and challenge offers from crowding out the other steps.
+   Half of the walks are "shaped" towards token expiry: one host, single-element required
+   scopes answered by a challenge for exactly that scope, a first token that lives long and
+   later tokens that live 1-2 s, and larger clock steps - so that a LATER token expires
+   EARLIER than one cached before it and is then asked for again after its expiry. *)
 EXTENDS OciAuthMC, Json
 
-VARIABLES h, fin
-gvars == <<vars, h, fin>>
+VARIABLES h, fin, mode
+gvars == <<vars, h, fin, mode>>
+Shaped == mode = "shaped"
 S == 1
 CfgAll == [Hosts -> {"none", "basic", "refresh", "both", "static", "cfgerr"}]
 Bad == [scheme |-> "bad", realm |-> "-", scope |-> {}]
 OffersGen == OffersAll \cup {{Bad}, {Bad, BasicChal, Other}} \cup {{a, b} : a, b \in Bearers}
 
-GInit == Init /\ h = <<>> /\ fin = FALSE
-Rec(o) == h' = Append(h, o) /\ UNCHANGED fin
+GInit == /\ Init /\ h = <<>> /\ fin = FALSE
+         /\ mode \in {"free", "shaped"}
+         /\ Shaped => cfg["h1"] \in {"none", "basic", "refresh", "both"}
+Rec(o) == h' = Append(h, o) /\ UNCHANGED <<fin, mode>>
 OffList(offers) == offers
 GNext ==
   /\ ~fin
-  /\ \/ \E hh \in Hosts, req \in {RandomElement(ScopeSets)}, w \in {RandomElement(ScopeSets \cup {{}})}, b \in {RandomElement(Bodies)} :
+  /\ \/ \E hh \in (IF Shaped THEN {"h1"} ELSE Hosts),
+            req \in {IF Shaped THEN {RandomElement(RS)} ELSE RandomElement(ScopeSets)},
+            w \in {IF Shaped THEN {} ELSE RandomElement(ScopeSets \cup {{}})}, b \in {RandomElement(Bodies)} :
           /\ Begin(S, hh, req, w, b)
           /\ Rec([op |-> "call", h |-> hh, req |-> req, want |-> w, body |-> b, at |-> clock])
-     \/ Tick /\ UNCHANGED <<h, fin>>
-     \/ Internal(S) /\ UNCHANGED <<h, fin>>
-     \/ \E k \in 1..7, offers \in {RandomElement(OfferSets)}, other \in {RandomElement({403, 404, -1})} :
+     \/ ~Shaped /\ Tick /\ UNCHANGED <<h, fin, mode>>
+     \/ /\ Shaped /\ calls[S].pc = "idle" /\ ncalls >= 2      \* (the first two calls fill the cache)
+        /\ \E n \in {1, 2} : clock + n <= MaxClock /\ TickBy(n)
+        /\ UNCHANGED <<h, fin, mode>>
+     \/ Internal(S) /\ UNCHANGED <<h, fin, mode>>
+     \/ /\ Shaped /\ calls[S].pc = "resp1wait"      \* unauthenticated: challenge for exactly the required scope
+        /\ \E r \in {RandomElement(Realms)} :
+             LET c == calls[S]
+                 st == IF c.auth.k = "none" THEN 401 ELSE 200
+                 of == IF st = 401 THEN {BearerChal(r, c.req)} ELSE {} IN
+             Resp1(S, st, of) /\ Rec([op |-> "reg", status |-> st, offers |-> of])
+     \/ Shaped /\ Resp2(S, 200) /\ Rec([op |-> "reg", status |-> 200, offers |-> {}])
+     \/ /\ Shaped                                    \* the first token lives long, later ones 1-2 s
+        /\ \E life \in {IF Len(issued) = 0 THEN RandomElement({0, 6}) ELSE RandomElement({2, 4})} :
+             TokResp(S, "grant", life, FALSE) /\ Rec([op |-> "tok", kind |-> "grant", life |-> life, newrt |-> FALSE])
+     \/ ~Shaped /\ \E k \in 1..7, offers \in {RandomElement(OfferSets)}, other \in {RandomElement({403, 404, -1})} :
           LET st == IF k <= 4 THEN 401 ELSE IF k <= 6 THEN 200 ELSE other
               of == IF st = 401 THEN offers ELSE {} IN
           /\ Resp1(S, st, of)
           /\ Rec([op |-> "reg", status |-> st, offers |-> of])
-     \/ \E st \in Statuses : Resp2(S, st) /\ Rec([op |-> "reg", status |-> st, offers |-> {}])
-     \/ \E k \in 1..8, life \in Lives, newrt \in BOOLEAN :
+     \/ ~Shaped /\ \E st \in Statuses : Resp2(S, st) /\ Rec([op |-> "reg", status |-> st, offers |-> {}])
+     \/ ~Shaped /\ \E k \in 1..8, life \in Lives, newrt \in BOOLEAN :
           LET kind == IF k <= 4 THEN "grant" ELSE IF k = 5 THEN "notoken" ELSE IF k = 6 THEN "e401" ELSE IF k = 7 THEN "e404" ELSE "other"
               lf == IF kind = "grant" THEN life ELSE 0 IN
           /\ TokResp(S, kind, lf, newrt)
           /\ Rec([op |-> "tok", kind |-> kind, life |-> lf, newrt |-> (newrt /\ kind \in {"grant", "notoken"})])
      \/ /\ ncalls = MaxCalls /\ calls[S].pc = "idle"
-        /\ fin' = TRUE /\ UNCHANGED <<vars, h>>
+        /\ fin' = TRUE /\ UNCHANGED <<vars, h, mode>>
 GSpec == GInit /\ [][GNext]_gvars
-Emit == fin => PrintT(<<"MBT", ToJson([cfg |-> cfg, ops |-> h])>>)
+Emit == fin => PrintT(<<"MBT", ToJson([cfg |-> cfg, mode |-> mode, ops |-> h])>>)
 ==============================================================================
